@@ -215,5 +215,69 @@ prop("C15",
      "Enabling lemmas only (single node, one step or <= 2*ET ticks): W1 a heartbeat response un-pauses replication, W3 a stalled transfer is abandoned, W4 snapshot state is left, W5 a storage acknowledgement is always requested and trims the unstable log, W6 the election timer fires, W7 a stale leader is answered, W8 auto-leave is retried. Global convergence, the bound on election timeouts and the two-voter exception are NOT decided.",
      level="other")
 
+# ---------------- thorough tier: only cells that have run to completion ----------------
+# "register only bounds that ran clean on the unchanged tree": tools/tier_ok.json
+# lists the deeper cells (vpH_stepT_*, vpH_stepM_*, and the larger non-step
+# harnesses) that completed without inconclusive paths within their budget on
+# this tree. A thorough entry that is not listed falls back: stepT -> stepM ->
+# the quick cell; other unlisted harnesses are dropped. The thorough tier is
+# then the union of the property's quick entries and these deeper ones.
+import os
+ok = set()
+if os.path.exists('/verif/tools/tier_ok.json'):
+    ok = set(json.load(open('/verif/tools/tier_ok.json'))['ok'])
+quick_names = set()
+for sp in specs.values():
+    for e in sp['quick']['harnesses']:
+        quick_names.add(e['h'])
+
+STANDIN = {'vpH_step_L_MsgAppResp': LEAD_ACK_Q + LEAD_ACK_JOINT, 'vpH_step_L_MsgHeartbeatResp': LEAD_HBR_Q, 'vpH_step_L_MsgProp': PROP_Q[3:]}
+
+def resolve(h):
+    """-> list of harness names standing for h in the thorough tier"""
+    if h in ok or h in quick_names:
+        return [h]
+    if h.startswith('vpH_stepT_'):
+        m = h.replace('vpH_stepT_', 'vpH_stepM_')
+        if m in ok:
+            return [m]
+        h = h.replace('vpH_stepT_', 'vpH_step_')
+        if h in ok or h in quick_names:
+            return [h]
+    if h in STANDIN:
+        return [x for x in STANDIN[h] if x in ok or x in quick_names]
+    return []
+
+fallbacks = {}
+for pid, sp in specs.items():
+    seen = set()
+    out = []
+    for e in sp['quick']['harnesses'] + sp['thorough']['harnesses']:
+      hs = resolve(e['h'])
+      if not hs:
+          fallbacks.setdefault(pid, []).append(e['h'] + ' (dropped)')
+      elif hs != [e['h']]:
+          fallbacks.setdefault(pid, []).append(e['h'] + ' -> ' + ' + '.join(hs))
+      for h in hs:
+        e2 = dict(e)
+        e2['h'] = h
+        key = (h, tuple(e2['labels']), tuple(e2.get('policies', [])))
+        if key in seen:
+            continue
+        # merge label lists of the same harness
+        merged = False
+        for o in out:
+            if o['h'] == h and o.get('policies') == e2.get('policies') and o.get('panics') == e2.get('panics'):
+                for l in e2['labels']:
+                    if l not in o['labels']:
+                        o['labels'] = o['labels'] + [l]
+                merged = True
+                break
+        seen.add(key)
+        if not merged:
+            out.append(e2)
+    sp['thorough']['harnesses'] = out
+json.dump(fallbacks, open('/verif/specs/thorough_fallbacks.json', 'w'), indent=1)
+
 json.dump(specs, open('/verif/specs/checks.json', 'w'), indent=1)
 print("properties:", sorted(specs))
